@@ -67,7 +67,7 @@ async fn run_storm(a: &Args, m: &mut mon::Mon) {
         let seed = subseed(a, world_no);
         let mut r = storm::rng(seed);
         use rand::Rng;
-        let cfg = storm::StormCfg { n_banks: r.gen_range(3..=6), n_users: r.gen_range(3..=6), program_fees: r.gen_bool(0.6), magnitude: storm::pick(&mut r, &[0u8, 1, 1, 1, 2]), with_staked: a.prop == "C16" && r.gen_bool(0.6), n_isolated: 1, emode: r.gen_bool(0.3), n_venue: 0 };
+        let cfg = storm::StormCfg { n_banks: r.gen_range(3..=6), n_users: r.gen_range(3..=6), program_fees: r.gen_bool(0.6), magnitude: storm::pick(&mut r, &[0u8, 1, 1, 1, 2]), with_staked: a.prop == "C16" && r.gen_bool(0.6), n_isolated: 1, emode: r.gen_bool(0.3), n_venue: if a.prop == "C02" && r.gen_bool(0.35) { 3 } else { 0 } };
         let (mut w, mut s) = storm::Storm::build(seed, cfg).await;
         let steps = if a.tier == "thorough" { 6000 } else { 1500 };
         for k in 0..steps {
